@@ -22,7 +22,7 @@ PATCH="$OUT/patch.diff"
   base=$( (cd client && go test -vet=off -count=1 ./pkg/... 2>&1 | grep -c "^ok") )
   sb=$( (cd server && go build ./... && go build -tags verif ./...) >/dev/null 2>&1 && echo ok || echo FAIL)
   echo "[$ID] baseline packages ok: $base/6, server build: $sb"
-  (cd "$V" && VERIF_REPO_LOCKED=1 VERIF_BIN_DIR="$SCR/bin" ./check C12 --build-only); rc=$?
+  (cd "$V" && VERIF_REPO_LOCKED=1 VERIF_BIN_DIR="$SCR/bin" ./check C12 --build-only && VERIF_REPO_LOCKED=1 VERIF_BIN_DIR="$SCR/bin" ./check C08 --build-only); rc=$?   # C12: both worker binaries; C08: the server binary of the process cases
   git checkout -q -- . ; git clean -fdq
   exit $rc
 ) 9>"$LOCK" || { echo "[$ID] build failed"; exit 2; }
